@@ -84,18 +84,18 @@ def consistent(obs, universe):
     seq = obs['seq']
     probs = []
     if len(set(seq)) != len(seq):
-        probs.append(f'iteration yields a duplicate: {seq}')
+        probs.append(f'[duplicate] iteration yields a duplicate: {seq}')
     if obs['len'] != len(seq):
-        probs.append(f'len() = {obs["len"]} but iteration yields {len(seq)} items')
+        probs.append(f'[len] len() = {obs["len"]} but iteration yields {len(seq)} items')
     bad = [v for v in universe if obs['contains'][v] != (v in seq)]
     if bad:
-        probs.append(f'`in` disagrees with iteration for {bad} (iteration {seq})')
+        probs.append(f'[membership] `in` disagrees with iteration for {bad} (iteration {seq})')
     if obs['getitem'] is not None and obs['getitem'] != seq:
-        probs.append(f'indexing yields {obs["getitem"]}, iteration {seq}')
+        probs.append(f'[indexing] indexing yields {obs["getitem"]}, iteration {seq}')
     if obs['neg'] is not None and obs['neg'] != seq[::-1]:
-        probs.append(f'negative indexing yields {obs["neg"]}, expected {seq[::-1]}')
+        probs.append(f'[indexing] negative indexing yields {obs["neg"]}, expected {seq[::-1]}')
     if obs['reversed'] != seq[::-1]:
-        probs.append(f'reversed() yields {obs["reversed"]}, iteration {seq}')
+        probs.append(f'[reversed] reversed() yields {obs["reversed"]}, iteration {seq}')
     return probs
 
 
@@ -269,17 +269,17 @@ def step_check(make, universe, states, ops_for, label, has_sort=False, partial_o
                 try:
                     probs += extra_reads(c, after['seq'])
                 except EXC as e:
-                    probs.append(f'reading the lookup index raises {type(e).__name__}: {e}')
+                    probs.append(f'[lookup] reading the lookup index raises {type(e).__name__}: {e}')
             if rejected is not None:
                 if raised is None:
-                    probs.append(f'accepted although the ordered-set contract rejects it ({rejected}); contents now {after["seq"]}')
+                    probs.append(f'[accepted-{rejected}] accepted although the ordered-set contract rejects it ({rejected}); contents now {after["seq"]}')
                 elif after['seq'] != list(seq) and not (op in partial_ok):
-                    probs.append(f'raised {raised} but the contents changed: {list(seq)} -> {after["seq"]}')
+                    probs.append(f'[changed-on-reject] raised {raised} but the contents changed: {list(seq)} -> {after["seq"]}')
             else:
                 if raised is not None:
-                    probs.append(f'raises {raised} although the operation is legal (model result {want})')
+                    probs.append(f'[raises] raises {raised} although the operation is legal (model result {want})')
                 elif after['seq'] != want:
-                    probs.append(f'contents {after["seq"]}, the list-without-duplicates model gives {want}')
+                    probs.append(f'[contents] contents {after["seq"]}, the list-without-duplicates model gives {want}')
             results.append((not probs, op, case, '; '.join(probs) or 'agrees with the model'))
         # copy independence
         try:
@@ -294,9 +294,9 @@ def step_check(make, universe, states, ops_for, label, has_sort=False, partial_o
             want_d = (list(seq) + fresh[:1])[1 if seq else 0:]
             probs = consistent(oc, universe) + consistent(od, universe)
             if oc['seq'] != list(seq):
-                probs.append(f'changing the copy changed the original: {oc["seq"]}')
+                probs.append(f'[copy] changing the copy changed the original: {oc["seq"]}')
             if od['seq'] != want_d:
-                probs.append(f'the copy holds {od["seq"]}, expected {want_d}')
+                probs.append(f'[copy] the copy holds {od["seq"]}, expected {want_d}')
         except EXC as e:
             probs = [f'raises {type(e).__name__}: {e}']
         results.append((not probs, 'copy', f'{label}({list(seq)}).copy() then append/delete on the copy', '; '.join(probs) or 'independent'))
@@ -470,12 +470,12 @@ def fold_predicates_blackbox(m: Model, deep=False):
                 member = next((q for q in seq if ref in q.refs), None)
                 has = ref in c
                 if has != (member is not None):
-                    probs.append(f'`{ref!r} in store` is {has} but the members are {seq}')
+                    probs.append(f'[lookup] `{ref!r} in store` is {has} but the members are {seq}')
                     continue
                 if member is not None:
                     got = c.get(ref)
                     if got is not member and got != member:
-                        probs.append(f'get({ref!r}) returns {got!r}, the member with that reference is {member!r}')
+                        probs.append(f'[lookup] get({ref!r}) returns {got!r}, the member with that reference is {member!r}')
         return probs
     states = [s_ for s_ in small_states(U, len(U) - 1, True) if not conflict(list(s_))]
     res = step_check(make, U, states, lambda n: operations(n, U), 'Predicates', has_sort=True, conflict=conflict, extra_reads=extra_reads)
